@@ -122,6 +122,23 @@ func populationPass(t *testing.T, rep *ev.Report) {
 			synctest.Wait()
 		}
 
+		// twins: hellos that differ from an earlier client's only in what one of the two TLS fingerprints ignores (the
+		// ALPN list: JA3 does not see it, JA4 does)
+		for k := 3; k < 9; k++ {
+			cl := connect(fmt.Sprintf("twin-of-p%d", k), variant(k, []string{"spdy/3", "http/1.1"}))
+			h1(cl, fmt.Sprintf("/twin/%d", k))
+			cl.Close()
+			synctest.Wait()
+		}
+		// a connection that opens with the SAME SETTINGS, WINDOW_UPDATE and PRIORITY frames as the HTTP/2 resident and then
+		// changes one of its settings in the middle of the connection
+		changer, stateC := openH2("settings-changer", variant(1001, []string{"h2"}))
+		h2(changer, stateC, 1, "/settings-changer/1")
+		changer.Write(h2wire.Settings(h2wire.Setting{ID: 4, Val: 1048576}))
+		stateC.OnSettings([]h2fpref.Setting{{ID: 4, Val: 1048576}})
+		synctest.Wait()
+		h2(changer, stateC, 9, "/settings-changer/2")
+
 		h1(keeper, "/resident-h1/2")
 		h2(resident2, state2, 9, "/resident-h2/2")
 		again := connect("resident-h1-again", variant(0, []string{"http/1.1"}))
